@@ -83,6 +83,23 @@ Proof.
   intros [= <-]. destruct (load_bytes_spec ps p Hwf) as (H1 & H2 & _). auto.
 Qed.
 
+(* MarkDirty: the logical content stays (zeroes on a fresh page without contents), the page is dirty and has a buffer *)
+Theorem mark_dirty_spec ps p p' : wf ps p -> page_mark_dirty ps p = POk p' ->
+  wf ps p' /\ lcontent p' = Some (base ps (lcontent p)) /\ f_dirty (pg_flags p') = true.
+Proof.
+  intros Hwf. unfold page_mark_dirty. destruct (can_write p); cbn [negb]; [|discriminate].
+  intros [= <-].
+  destruct (pg_bytes p) as [b|] eqn:Eb.
+  - destruct Hwf as (Hd & Hb & Hc & Hy). unfold wf, lcontent. cbn. rewrite Eb. cbn.
+    repeat split; auto; try discriminate. intros b0 [= <-]. apply Hb. exact Eb.
+  - destruct (load_bytes_spec ps p Hwf) as ((Hd & Hb & Hc & Hy) & Hl & Hn).
+    assert (E : lcontent p = match (if f_new (pg_flags p) then None else Some (pg_disk p)) with x => x end).
+    { unfold lcontent. rewrite Eb. reflexivity. }
+    unfold wf, lcontent in *. cbn. rewrite Eb in Hl.
+    destruct (pg_bytes (load_bytes ps p)) as [b|] eqn:Eb1; [|contradiction].
+    repeat split; auto; try discriminate. rewrite Eb. exact Hl.
+Qed.
+
 Lemma splice_length off c b : (off + length c <= length b)%nat -> length (splice off c b) = length b.
 Proof.
   intros H. unfold splice. rewrite !app_length, firstn_length, skipn_length. lia.
@@ -141,3 +158,13 @@ Proof.
   destruct (load_spec ps _ _ Hw1 H2) as (_ & Hc2).
   rewrite Hc2, Hc1. rewrite Hl, Nat.ltb_irrefl. reflexivity.
 Qed.
+
+(* the code as found: a dirty page without buffer, whose flush writes nothing *)
+Theorem mark_dirty_v1_refuted : exists (p p' p'' : pagest) w,
+  wf 4 p /\ page_mark_dirty_v1 p = POk p' /\ f_dirty (pg_flags p') = true /\
+  page_flush p' = POk (p'', w) /\ w = None /\ lcontent p = Some [1; 2; 3; 4].
+Proof.
+  exists (existing_page [1; 2; 3; 4]). eexists. eexists. eexists.
+  split; [apply existing_wf; reflexivity|]. repeat split.
+Qed.
+
